@@ -628,5 +628,10 @@ func retryDelay(attempt int, retry RetryConfig) time.Duration {
 			delay = 0
 		}
 	}
+	if delay >= float64(math.MaxInt64) {
+		// float64 -> int64 conversion of an out-of-range value is undefined
+		// (negative on amd64); saturate instead.
+		return time.Duration(math.MaxInt64)
+	}
 	return time.Duration(delay)
 }
